@@ -199,6 +199,21 @@ def gen_configs(rng, tier):
         c = dict(base, tag="stop-%d" % i, stop=stop, iter=rng.choice(["euler", "euler", "rk4"]),
                  calls=[(100.0, 0.02)] if rng.random() < 0.7 else [(40.0, 0.02), (60.0, 0.02)])
         cfgs.append(c)
+    # non-monotonic monitored quantities (nucleation burst, density peak): met early, fall back below the threshold later,
+    # and-combined with a condition that is met late / or-combined with one never met
+    burst = dict(phases=[dict(name="beta", gamma=0.05)], D=1e-15, cap=900)
+    rb = K.run(dict(burst, calls=[(1.5, 0.02)]))
+    db = rb["model"].pData
+    nb = int(db.n)
+    nuc, dens, vf = db.nucRate[:nb + 1, 0], db.precipitateDensity[:nb + 1, 0], db.volFrac[:nb + 1, 0]
+    if 0 < int(np.argmax(nuc)) < nb - 50:
+        late_vf = float(vf[int(np.argmax(nuc)) + (nb - int(np.argmax(nuc))) // 2])
+        for j, (k, thr) in enumerate((("nuc", float(nuc.max()) / 2), ("dens", float(dens.max()) * 0.97))):
+            for mode2 in ("and", "or"):
+                stop = [(k, True, thr, "and", None), ("vf", True, late_vf, mode2 if mode2 == "and" else "and", None)]
+                if mode2 == "or":
+                    stop.append(("ravg", True, 1.0, "or", None))      # never met
+                cfgs.append(dict(burst, tag="stop-burst-%s-%s" % (k, mode2), stop=stop, iter="euler", calls=[(1.5, 0.02)]))
     return cfgs, ref
 
 
